@@ -1,5 +1,6 @@
 //! mc <Cxx> [--tier quick|thorough] [--replay <file>]
 mod alloc;
+mod e2;
 mod gen;
 mod props;
 mod reftext;
